@@ -731,7 +731,9 @@ def check_guard(ctx, crate, E, g):
         else:
             raise EngineError("panic table: unknown guard rule %s" % g["rule"])
         ok = bool(sub.obs) and all(o.ok for o in sub.obs)
-        return ok, "rule %s holds (%d obligations)" % (g["rule"], len(sub.obs))
+        return ok, ("rule %s holds (%d obligations)" % (g["rule"], len(sub.obs)) if ok else
+                    "rule %s is violated on this tree (%s)" % (
+                        g["rule"], "; ".join(o.msg[:80] for o in sub.obs if not o.ok)[:200]))
     if kind == "bound":
         fa = E.fa(g["fn"])
         S = Sym(E, fa)
